@@ -1,6 +1,7 @@
 import PwVerif.Proofs.FuncWrap
 import PwVerif.Proofs.PyAst
 import PwVerif.Proofs.Kinds
+import PwVerif.Proofs.DcMro
 /-!
 # C17 — Node classes faithfully wrap their definitions
 
@@ -61,7 +62,7 @@ values + the source lines as code points); everything `ParseOutput` does with th
 Only property theorems live here; lemmas are in `Proofs/FuncWrap.lean`.
 -/
 namespace PwVerif.C17
-open PwVerif PwVerif.FuncWrap PwVerif.PyAst PwVerif.Kinds
+open PwVerif PwVerif.FuncWrap PwVerif.PyAst PwVerif.Kinds PwVerif.DcMro
 
 /-- **binding**: for every signature, both splits and all values, with `n0` the freshly set-up node:
 (1) if Python binds `vs`, construction succeeds and the call's gate hands the body exactly `vs`;
@@ -1307,6 +1308,83 @@ example : pyArgsK exKinds [] [] [.atom "i1", .atom "i2", .atom "i5"] [] = .error
 example : pyArgs (sigOf exKinds) [] [] [] [("a", .atom "i1"), ("b", .atom "i2")] = .ok [.atom "i1", .atom "i2", .atom "i3"] := rfl
 example : pyArgs (sigOf exKinds) [] [] [.atom "i1", .atom "i2", .atom "i5"] [] = .ok [.atom "i1", .atom "i2", .atom "i5"] := rfl
 
+/-! ### dataclass hierarchies: the field table along the MRO; which members are inputs; per-class previews -/
+
+/-- **the node works with the table Python's `dataclass()` gives the class**, whether the leaf was decorated in
+the source or is converted by the factory (the factory converts exactly the classes that were not decorated
+THEMSELVES — an inherited table does not count), for every chain of ancestors -/
+theorem C17_dc_mro_as_coded (chain : List DClass) (leaf : DClass) :
+    nodeTable false chain leaf = pythonTable chain leaf := by
+  unfold nodeTable
+  cases leaf.decorated <;> simp
+
+/-- **what that table is**: every member written in the body of the class itself is in it under its name — a
+redefined default, annotation or factory wins over the inherited one — and every other name shows what the
+ancestors' tables, merged base-most first, show for it -/
+theorem C17_dc_mro_own_wins (chain : List DClass) (leaf : DClass) (hnd : (leaf.own.map (·.name)).Nodup) :
+    (∀ f ∈ leaf.own, (pythonTable chain leaf).find? (fun g => g.name == f.name) = some f) ∧
+    (∀ n, (∀ f ∈ leaf.own, f.name ≠ n) →
+      (pythonTable chain leaf).find? (fun g => g.name == n)
+        = (process (seenTables [] chain) []).find? (fun g => g.name == n)) := by
+  refine ⟨fun f hf => putAll_find_own _ _ hnd f hf, fun n hn => ?_⟩
+  unfold pythonTable process
+  rw [putAll_find_other _ _ n hn]
+  rfl
+
+/-- `@dataclass class Lattice: element: str; a: float = 4.05` -/
+def lattice : DClass := ⟨true, [⟨"element", .none, .field, true, none⟩, ⟨"a", .value (.atom "4.05"), .field, true, none⟩]⟩
+/-- `class Supercell(Lattice): a: float = 3.61; repeat: int = 2; tags: list = field(default_factory=list)` -/
+def supercell : DClass :=
+  ⟨false, [⟨"a", .value (.atom "3.61"), .field, true, none⟩, ⟨"repeat", .value (.atom "2"), .field, true, none⟩,
+           ⟨"tags", .factory (.atom "list()"), .field, true, none⟩]⟩
+
+/-- the reading `if not is_dataclass(cls)` takes a class that only INHERITS a table for finished: the
+undecorated `Supercell(Lattice)` keeps `Lattice`'s two fields with the old default, where Python's `dataclass()`
+— and the factory as coded — gives `element, a (= 3.61, in its inherited place), repeat, tags` -/
+theorem C17_dc_mro_isdataclass_witness :
+    (pythonTable [lattice] supercell).map (·.name) = ["element", "a", "repeat", "tags"] ∧
+    (nodeTable false [lattice] supercell).map (·.name) = ["element", "a", "repeat", "tags"] ∧
+    (nodeTable true [lattice] supercell).map (·.name) = ["element", "a"] ∧
+    ((pythonTable [lattice] supercell).find? (fun g => g.name == "a")).map (fun f => f.dflt matches .value (.atom "3.61")) = some true ∧
+    ((nodeTable true [lattice] supercell).find? (fun g => g.name == "a")).map (fun f => f.dflt matches .value (.atom "4.05")) = some true := by
+  decide
+
+/-- an undecorated class in the MIDDLE of the chain shows its parent's table: its own members are lost for its
+children (Python's semantics, transcribed) -/
+example : (pythonTable [lattice, ⟨false, [⟨"mid", .none, .field, true, none⟩]⟩] ⟨false, [⟨"z", .none, .field, true, none⟩]⟩).map (·.name)
+    = ["element", "a", "z"] := by decide
+
+/-- what the property demands of the members of a dataclass: the node's inputs are the parameters of the
+dataclass's `__init__`, so that `D(**inputs)` can be built -/
+def DcInitStatement (raw : Bool) : Prop := ∀ tbl : List DField, buildable (inputFields raw tbl) = true
+
+theorem C17_dc_inputs_repaired : DcInitStatement false := by
+  intro tbl
+  simp [buildable, inputFields, List.all_filter]
+
+/-- one input per entry of `__dataclass_fields__` (pinned) includes `ClassVar` pseudo-fields and `init=False`
+fields, which `D(**inputs)` refuses: such a node can never run -/
+theorem C17_dc_inputs_witness : ¬ DcInitStatement true := by
+  intro h
+  have := h [⟨"x", .value (.atom "1"), .field, true, none⟩, ⟨"unit", .value (.atom "m"), .classVar, true, none⟩]
+  revert this
+  decide
+
+/-- **previews are per class**: with the memo keyed by the asking class, every request of every session — in
+whatever order parents and children are defined, previewed and instantiated — gets the preview built from the
+class's own definition -/
+theorem C17_preview_per_class {α : Type} (parent : Nat → Option Nat) (fuel : Nat) (build : Nat → α)
+    (reqs : List Nat) : memoRun false parent fuel build (fun _ => none) reqs = reqs.map build :=
+  memoRun_perClass parent fuel build _ (by intro c v h; cases h) reqs
+
+/-- kept in a class attribute that children inherit, a child asked after its parent gets the parent's preview
+(class 1 extends class 0; asked in the other order both are right) -/
+theorem C17_preview_inherited_witness :
+    memoRun true (fun c => if c = 1 then some 0 else none) 2 (fun c => c + 10) (fun _ => none) [0, 1] = [10, 10] ∧
+    memoRun true (fun c => if c = 1 then some 0 else none) 2 (fun c => c + 10) (fun _ => none) [1, 0] = [11, 10] ∧
+    memoRun false (fun c => if c = 1 then some 0 else none) 2 (fun c => c + 10) (fun _ => none) [0, 1] = [10, 11] := by
+  decide
+
 end PwVerif.C17
 
 #print axioms PwVerif.C17.C17_bind
@@ -1353,3 +1431,10 @@ end PwVerif.C17
 #print axioms PwVerif.C17.C17_run_kinds_repaired
 #print axioms PwVerif.C17.C17_run_kinds_witness
 #print axioms PwVerif.C17.C17_variadic_witness
+#print axioms PwVerif.C17.C17_dc_mro_as_coded
+#print axioms PwVerif.C17.C17_dc_mro_own_wins
+#print axioms PwVerif.C17.C17_dc_mro_isdataclass_witness
+#print axioms PwVerif.C17.C17_dc_inputs_repaired
+#print axioms PwVerif.C17.C17_dc_inputs_witness
+#print axioms PwVerif.C17.C17_preview_per_class
+#print axioms PwVerif.C17.C17_preview_inherited_witness
